@@ -78,3 +78,23 @@
   (er-macro-transformer
    (lambda (form rename compare)
      (list (rename 'quote) (if (compare (cadr form) (rename 'else)) 'is-else 'not-else)))))
+;; 8 macro-defining macro whose outer template supplies an identifier that ends up free in one generated macro and as a binder in
+;;   a sibling generated macro: the binder introduced by `wrap` must not capture the reference inserted by `get`
+(define-syntax with-x
+  (syntax-rules ()
+    ((_ get wrap body)
+     (let ((x 'outer-x))
+       (let-syntax ((get (syntax-rules () ((_) x)))
+                    (wrap (syntax-rules () ((_ e) (let ((x 'wrap-x)) e)))))
+         body)))))
+;; 9 generate-temporaries idiom inside a generated macro: every expansion step inserts a new `t`, all distinct binders
+(define-syntax define-collector
+  (syntax-rules ()
+    ((_ name)
+     (define-syntax name
+       (syntax-rules ()
+         ((_ () (tmp (... ...)) (e (... ...)))
+          (let ((tmp e) (... ...)) (list tmp (... ...))))
+         ((_ (a . rest) (tmp (... ...)) (e (... ...)))
+          (name rest (tmp (... ...) t) (e (... ...) a))))))))
+(define-collector collect)
